@@ -416,9 +416,13 @@ pub const PROBE_AS_LIMIT: u64 = 1 << 30;
 
 /// Run one probe in a forked child (the worker is single-threaded): a process abort (allocation failure, panic inside
 /// `extern "C"`, stack overflow) becomes `Verdict::Crash("abort:<class>")` instead of killing the worker.
+static CHILD_ERR: std::sync::OnceLock<Option<std::fs::File>> = std::sync::OnceLock::new();
+
 pub fn isolated(scratch: &Path, f: impl FnOnce() -> Verdict) -> Verdict {
-    let errpath = scratch.join(format!("c10-child-stderr-{}.txt", std::process::id()));
-    let cerr = std::ffi::CString::new(errpath.to_string_lossy().as_bytes()).unwrap();
+    use std::os::fd::AsRawFd;
+    // one append-only file per worker receives the children's stderr (never truncated: truncate+rewrite forces a flush on ext4)
+    let errfile = CHILD_ERR.get_or_init(|| std::fs::OpenOptions::new().create(true).append(true).read(true).open(scratch.join(format!("c10-child-stderr-{}.txt", std::process::id()))).ok());
+    let err_from = errfile.as_ref().and_then(|f| f.metadata().ok()).map(|m| m.len()).unwrap_or(0);
     unsafe {
         let mut fds = [0i32; 2];
         if libc::pipe(fds.as_mut_ptr()) != 0 {
@@ -432,10 +436,8 @@ pub fn isolated(scratch: &Path, f: impl FnOnce() -> Verdict) -> Verdict {
         }
         if pid == 0 {
             libc::close(fds[0]);
-            let fd = libc::open(cerr.as_ptr(), libc::O_WRONLY | libc::O_CREAT | libc::O_TRUNC, 0o644);
-            if fd >= 0 {
-                libc::dup2(fd, 2);
-                libc::close(fd);
+            if let Some(ef) = errfile {
+                libc::dup2(ef.as_raw_fd(), 2);
             }
             let lim = libc::rlimit { rlim_cur: PROBE_AS_LIMIT, rlim_max: PROBE_AS_LIMIT };
             libc::setrlimit(libc::RLIMIT_AS, &lim);
@@ -470,22 +472,48 @@ pub fn isolated(scratch: &Path, f: impl FnOnce() -> Verdict) -> Verdict {
             }
             return Verdict::Crash("harness:child-answer-unreadable".into());
         }
-        let err = std::fs::read_to_string(&errpath).unwrap_or_default();
-        let class = if err.contains("memory allocation of") {
-            "oversized-request"
-        } else if err.contains("cannot unwind") {
-            "panic-in-extern-C"
-        } else if err.contains("overflowed its stack") {
-            "stack-overflow"
-        } else if libc::WIFSIGNALED(status) {
-            match libc::WTERMSIG(status) {
-                libc::SIGSEGV => "SIGSEGV",
-                libc::SIGABRT => "SIGABRT",
-                libc::SIGKILL => "SIGKILL",
-                _ => "signal",
+        let err = match errfile {
+            Some(ef) => {
+                let len = ef.metadata().map(|m| m.len()).unwrap_or(err_from);
+                let mut buf = vec![0u8; (len.saturating_sub(err_from)).min(8192) as usize];
+                let _ = ef.read_at(&mut buf, err_from);
+                String::from_utf8_lossy(&buf).into_owned()
             }
+            None => String::new(),
+        };
+        let class = if err.contains("memory allocation of") {
+            "oversized-request".to_string()
+        } else if err.contains("cannot unwind") {
+            "panic-in-extern-C".to_string()
+        } else if err.contains("overflowed its stack") {
+            "stack-overflow".to_string()
         } else {
-            "exit-nonzero"
+            let sig = if libc::WIFSIGNALED(status) {
+                match libc::WTERMSIG(status) {
+                    libc::SIGSEGV => "SIGSEGV",
+                    libc::SIGABRT => "SIGABRT",
+                    libc::SIGKILL => "SIGKILL",
+                    _ => "signal",
+                }
+            } else {
+                "exit-nonzero"
+            };
+            // first line of what the child said, digits collapsed
+            let line: String = err.lines().find(|l| !l.trim().is_empty()).unwrap_or("").chars().take(90).collect();
+            let mut norm = String::new();
+            let mut in_num = false;
+            for ch in line.chars() {
+                if ch.is_ascii_digit() {
+                    if !in_num {
+                        norm.push('N');
+                    }
+                    in_num = true;
+                } else {
+                    in_num = false;
+                    norm.push(ch);
+                }
+            }
+            if norm.contains("failed to initiate panic") { "panic-could-not-unwind".to_string() } else { format!("{sig}:{norm}") }
         };
         Verdict::Crash(format!("abort:{class}"))
     }
@@ -703,7 +731,7 @@ pub fn file_regions(shape_idx: usize) -> &'static [&'static str] {
 
 pub fn crc_cfgs(thorough: bool, attrs: &[u8]) -> Vec<ArcCfg> {
     let mut v = Vec::new();
-    let vs: &[(u8, u16)] = if thorough { &[(1, 0), (2, 3), (3, 0), (4, 3), (2, 0), (1, 3)] } else { &[(1, 0), (2, 3)] };
+    let vs: &[(u8, u16)] = if thorough { &[(1, 0), (2, 3), (3, 0), (4, 0), (2, 0)] } else { &[(1, 0), (2, 3)] };
     for &(version, shift) in vs {
         for &method in &[0u8, 0x02] {
             for &enc in &[false, true] {
@@ -767,14 +795,17 @@ fn specs(thorough: bool) -> Vec<Spec> {
     v
 }
 
-/// quick: every 7th offset of bulk regions (phase from the seed), every offset of tables; thorough: every offset.
-pub fn stride_for(region: &str, thorough: bool) -> usize {
-    if thorough {
-        1
-    } else if matches!(region, "file_data" | "stored_files") {
-        7
-    } else {
-        1
+/// quick: every 7th offset of bulk regions (every 37th in 4 KiB-sector archives; phase from the seed), every offset of
+/// tables; thorough: every offset (multi-region alterations in 4 KiB-sector archives: every 5th).
+pub fn stride_for(region: &str, thorough: bool, cfg: &ArcCfg) -> usize {
+    let bulk = region.contains("file_data") || region == "stored_files";
+    let multi_region = region.contains('+');
+    match (thorough, bulk, cfg.shift >= 3) {
+        (_, false, _) => 1,
+        (true, true, true) if multi_region => 5,
+        (true, true, _) => 1,
+        (false, true, true) => 37,
+        (false, true, false) => 7,
     }
 }
 
@@ -796,7 +827,7 @@ fn main() {
             run.case(idx, &format!("sig-fn|{class}"), desc, |c| sig_fn_case(c, len, &mut rng, thorough));
             continue;
         }
-        let stride = stride_for(sp.region, thorough);
+        let stride = stride_for(sp.region, thorough, &sp.cfg);
         let phase = rng.usize(stride);
         let shape = if sp.file == NOFILE { "archive" } else { ["single", "3-sector", "9-sector"][sp.file] };
         let class = format!("{}|{}|{}|{}|{}", sp.kind, sp.cfg.label(), shape, sp.region, sp.ck);
@@ -885,7 +916,9 @@ fn crc_case(c: &mut Case, sp: &Spec, b: &Built, stride: usize, phase: usize) {
         c.nontrivial = false;
     }
     if t.violated > 0 {
-        let sig = format!("undetected|sector-crc|{}|{}|{method}|{enc}", sp.region, f.shape_sig());
+        // multi-sector files: the defect (sector checksums never compared) does not depend on encryption -> one signature per (region, method)
+        let enc_sig = if f.shape_sig() == "multi-sector" { "any" } else { enc };
+        let sig = format!("undetected|sector-crc|{}|{}|{method}|{enc_sig}", sp.region, f.shape_sig());
         c.violate(sig, format!("{} of {} alterations ({}) in the {} of the {} file {:?} ({method}, {enc}): read_file returned Ok with content different from the original", t.violated, t.probes, sp.ck, sp.region, f.shape, f.name), t.first_viol.clone().unwrap_or(json!({})));
     }
 }
